@@ -1198,8 +1198,10 @@ int EGLPNUM_TYPENAME_ILLwrite_mps (
 															 intmode, objname);
 			if (lp->refrowname && (lp->refind == -1))
 			{
-				EGLPNUM_TYPENAME_ILLprint_report (lp, "  %s    %s    %g\n",
-												 colnames[ri], lp->refrowname, lp->sos.matval[el]);
+				str = EGLPNUM_TYPENAME_EGlpNumGetStr (lp->sos.matval[el]);
+				EGLPNUM_TYPENAME_ILLprint_report (lp, "  %s    %s    %s\n",
+												 colnames[ri], lp->refrowname, str);
+				EGfree (str);
 			}
 		}
 		if (!empty)
